@@ -472,6 +472,16 @@ func (g *gm) call(c *ast.CallExpr) string {
 				}
 				return "(.call " + g.bad("?sort.Search closure", c) + " [])"
 			}
+			if q == "atomic.StorePointer" && len(c.Args) == 2 {
+				// atomic.StorePointer((*unsafe.Pointer)(unsafe.Pointer(&x.f)), unsafe.Pointer(v)): an effect naming the field and the value
+				// stored (readers of the field are accessor calls answered by the theorem's table)
+				if inner, ok := c.Args[1].(*ast.CallExpr); ok && len(inner.Args) == 1 && nows(g.f.src(inner.Fun)) == "unsafe.Pointer" {
+					field := regexp.MustCompile(`&([A-Za-z_][A-Za-z0-9_.]*)`).FindStringSubmatch(g.f.src(c.Args[0]))
+					if field != nil {
+						return "(.call \"atomic.StorePointer\" [(.str " + strconv.Quote(field[1]) + "), " + g.expr(inner.Args[0]) + "])"
+					}
+				}
+			}
 			return "(.call " + strconv.Quote(q) + " " + g.args(c) + ")"
 		}
 		name := fn.Sel.Name
